@@ -10,6 +10,8 @@ From Wbxml Require Import Model.Codec Model.TablesDefs Gen.TablesData Model.Pars
      Proofs.TreeBuildProofs Proofs.TreeBuildProofs3 Proofs.TreeRoundTrip Proofs.ConvRoundTrip Proofs.ConvSecondIter Proofs.ConvFirstToSecond Proofs.ConvSecondIndent Proofs.ConvSecondNs
      Proofs.TreeRoundTripWide Proofs.ConvRoundTripWide Proofs.ConvWideUnforced Proofs.ConvSecondIterWide Proofs.ConvFirstToSecondWide Proofs.ConvSecondIndentWide Proofs.ConvWideEvents.
 From Wbxml Require Model.XmlFrontCanonEvents.
+From Wbxml Require Import Proofs.TreeRoundTripUnion Proofs.ConvRoundTripUnion.
+From Wbxml Require Proofs.EncWbxmlAbs5 Proofs.EncWbxmlDenote5 Proofs.EncWbxmlDenote6 Proofs.EncWbxmlClass6 Proofs.EncWbxmlUnion.
 From Wbxml Require Model.XmlFrontEvents Proofs.XmlFrontInverse Model.EncWbxmlEvents.
 From Wbxml Require Proofs.EncWbxmlSize Proofs.EncWbxmlSize2 Proofs.EncWbxmlSuccess.
 From Wbxml Require Proofs.EncWbxmlAbs Proofs.EncWbxmlDenote2 Proofs.EncWbxmlTblOk Proofs.EncWbxmlDenote3.
@@ -688,6 +690,48 @@ Theorem C03_qualified_infoset_commutes_with_blank_normal_form : forall it cur, q
 Proof. exact qual_nb. Qed.
 Print Assumptions C03_qualified_infoset_commutes_with_blank_normal_form.
 
+(* THE FIRST ITERATION ON THE UNION FRAGMENT of the WBXML encoder (C06_strict_decoding_yields_normalised_source: every language class,
+   typed content in canonical form, binary content, CDATA sections, embedded trees), for documents without an element named Data,
+   language forced: the second conversion succeeds, its output is the generator's text for the root of tn_union (C03b_roundtrip_union_partial:
+   elements with canonical attribute values, texts with the canonical typed forms / base64 of binary content, a CDATA section or an
+   embedded tree outside <Data> as one text node), and reading it back gives the infoset info_g specifies for that tree. *)
+Theorem C03_conversion_roundtrip_union_partial :
+  forall (main TBL : list lang) (btbl : list EncWbxml.blang) (sub : EncWbxml.bytes -> XmlFront.xtree + N)
+         evs expat_ok o doc w (L : lang) tag attrs ch o',
+  let e := EncWbxml.enc_env (EncWbxmlDenote2.to_blang L) o in
+  let root := EncWbxml.NElt tag attrs ch in
+  r_out (ConvXml2Wbxml.xml2wbxml_events main btbl sub evs expat_ok o doc) = Some w -> EncWbxml.len w < 4294967296 ->
+  (forall t0, XmlFront.tree_from_xml main sub doc evs expat_ok = inl t0 ->
+     EncWbxml.find_lang btbl (XmlFront.xt_lang t0) = Some (EncWbxmlDenote2.to_blang L) /\ XmlFront.xt_roots t0 = [root]) ->
+  EncWbxmlDenote2.vals_ok L = true -> EncWbxmlUnion.side_u L = true -> EncWbxmlAbs5.tag_tbl_ok e = true ->
+  EncWbxmlDenote6.tree_ok6 L (EncWbxmlUnion.aok_u L) (EncWbxmlUnion.tok_u L (EncWbxml.o_keep_ws o)) (EncWbxmlUnion.cok_plain L)
+                           (EncWbxmlUnion.eok_plain btbl e L) (EncWbxml.is_syncml (EncWbxml.e_lang e)) 0 true None root = true ->
+  find (fun x => l_id x =? l_id L) TBL = Some L ->
+  wo_lang o' = l_id L -> l_id L <> 0 -> wo_charset o' = 0 ->
+  EncWbxml.o_version o < 4 -> EncWbxml.header_public_id e < 4294967296 -> EncWbxml.header_public_id e <> 0 ->
+  (match EncWbxmlAbs.header_pid e with Some p => EncWbxmlDenote2.okb p = true | None => True end) ->
+  no_data (EncWbxmlClass6.doc_events6 btbl L e (EncWbxmlUnion.acan_u L) (EncWbxmlUnion.tev_u L e (EncWbxml.o_keep_ws o)) root) = true ->
+  let xl := EncXml.xlang_of L in
+  let xo := EncXml.opts_of_params (gen_of (wo_gen o')) (wo_indent o') (wo_keep_ws o') in
+  exists tg at' kids x,
+    tn_union btbl L o root = [TElt tg at' kids] /\
+    wbxml2xml_model TBL o' w = mk_res ST_OK (Some (x ++ [0])) (N.of_nat (length x)) /\
+    EncXml.enc_xml_opts xl xo [to_xnode TBL L (TElt tg at' kids)] = EncXml.XOk x /\
+    (EncXmlProofs.lang_ok xl = true ->
+     EncXmlIndent.node_ok_g xl xo EncXml.proot None (to_xnode TBL L (TElt tg at' kids)) = true ->
+     exists c s',
+       EncXmlIndent.info_g xl xo EncXml.proot (EncXml.est0 0) (to_xnode TBL L (TElt tg at' kids))
+         = Some ([XmlRead.XT []; XmlRead.XE (EncXml.tname_bytes (to_tname L tg))
+                                             (EncXmlProofs.spec_attrs xl xo EncXml.proot (to_tname L tg) (map to_attr at')) c;
+                  XmlRead.XT (EncXml.nl_if xo)], s') /\
+       forall fuel, (EncXmlProofs.node_fuel (to_xnode TBL L (TElt tg at' kids)) + 2 <= fuel)%nat ->
+         XmlRead.read_xml fuel x =
+         XmlRead.ROk (EncXmlProofs.doc_of xl
+                        [XmlRead.XE (EncXml.tname_bytes (to_tname L tg))
+                                    (EncXmlProofs.spec_attrs xl xo EncXml.proot (to_tname L tg) (map to_attr at')) c])).
+Proof. exact conversion_roundtrip_union. Qed.
+Print Assumptions C03_conversion_roundtrip_union_partial.
+
 (* ---- the hypotheses are satisfiable: a WML 1.3 deck through BOTH conversion functions, by computation ----
    <!DOCTYPE wml PUBLIC "-//WAPFORUM//DTD WML 1.3//EN" ...><wml><card><p> a </p><p>  </p></card></wml>
    encoder: WBXML 1.3, no string table, keep_ws off;  generator: compact, language not forced. *)
@@ -1092,3 +1136,61 @@ Proof.
   intros l Hin Hid. unfold main_table in Hin.
   repeat (destruct Hin as [<-|Hin]; [first [reflexivity | vm_compute in Hid; discriminate]|]). destruct Hin.
 Qed.
+
+(* the union fragment through both conversion functions: Service Indication, a %Datetime attribute (OPAQUE on the wire, canonical
+   text back), an attribute value token *)
+Definition exu_evs : list XmlFront.event :=
+  [XmlFront.EvStartDoctype (XmlFront.bs "si") (Some (XmlFront.bs "http://www.wapforum.org/DTD/si.dtd")) (Some (XmlFront.bs "-//WAPFORUM//DTD SI 1.0//EN"));
+   XmlFront.EvStartElement (XmlFront.bs "si") [] 100;
+   XmlFront.EvStartElement (XmlFront.bs "indication") [(XmlFront.bs "href", XmlFront.bs "http://www.xyz.com/"); (XmlFront.bs "created", XmlFront.bs "1999-06-25T15:23:15Z")] 105;
+   XmlFront.EvCharacters (XmlFront.bs " hello "); XmlFront.EvEndElement (XmlFront.bs "indication") 130; XmlFront.EvEndElement (XmlFront.bs "si") 150].
+Definition exu_o2 := EncWbxml.mk_opts 2 false false false.
+Definition exu_o' := mk_w2x 1301 0 0 0 false.
+Definition exu_x : bytes :=
+  bytes_of_string "<?xml version=""1.0""?><!DOCTYPE si PUBLIC ""-//WAPFORUM//DTD SI 1.0//EN"" ""http://www.wapforum.org/DTD/si.dtd""><si><indication href=""http://www.xyz.com/"" created=""1999-06-25T15:23:15Z"">hello</indication></si>".
+Example C03_ex_union_two_conversions :
+  match r_out (ConvXml2Wbxml.xml2wbxml_events main_table EncWbxmlTables.main_btable ex_sub exu_evs true exu_o2 [60]) with
+  | Some w => wbxml2xml_model main_table exu_o' w = mk_res ST_OK (Some (exu_x ++ [0])) (N.of_nat (length exu_x))
+  | None => False
+  end.
+Proof. vm_compute. reflexivity. Qed.
+
+(* the SyncML data-type rule on both sides, by computation: vObject data in <Data> under <Add>/<Item> - the XML front end adds the
+   CDATA node (C02f_added_cdata_is_canonical), the encoder writes it as ONE OPAQUE, the tree builder RE-CREATES the CDATA node
+   (C03b_data_rule_recreates_cdata), the generator writes the CDATA section again: two trips, the same XML and the same WBXML.
+   With a CR LF inside the data the second XML differs under THIS model of the parser (one character-data event per text: the
+   reader normalises CR LF to LF, and only a LONE LF event is turned back into CR LF by the front end - Expat delivers line ends as
+   separate events; C02f_lone_lf_differs): C03_ex_union_syncml_crlf_needs_split_events. *)
+Definition exs_L : lang := nth 19 main_table (mk_lang 0 0 None None None None None None None None).
+Definition exs_o := EncWbxml.mk_opts 2 false false false.
+Definition exs_o' := mk_w2x 2101 0 0 0 false.
+Definition exs_root (payload : EncWbxml.bytes) : EncWbxml.node :=
+  EncWbxml.NElt (EncWbxml.TagTok 0 45 0 (XmlFront.bs "SyncML")) []
+    [EncWbxml.NElt (EncWbxml.TagTok 0 5 0 (XmlFront.bs "Add")) []
+       [EncWbxml.NElt (EncWbxml.TagTok 0 20 0 (XmlFront.bs "Item")) []
+          [EncWbxml.NElt (EncWbxml.TagTok 0 15 0 (XmlFront.bs "Data")) [] [EncWbxml.NCData [EncWbxml.NText payload]]]]].
+Definition exs_trip (ev : list XmlFront.event) : option (bytes * bytes) :=
+  match r_out (ConvXml2Wbxml.xml2wbxml_events main_table EncWbxmlTables.main_btable ex_sub ev true exs_o [60]) with
+  | Some w => match r_out (wbxml2xml_model main_table exs_o' w) with Some x0 => Some (w, removelast x0) | None => None end
+  | None => None
+  end.
+Definition exs_two_trips (payload : EncWbxml.bytes) : option (bool * bool * bool) :=
+  match exs_trip (XmlFrontEvents.events_of exs_L (exs_root payload)) with
+  | Some (w1, x1) =>
+    match XmlRead.read_xml_auto x1 with
+    | XmlRead.ROk d =>
+      match exs_trip (events_of_info_ns d) with
+      | Some (w2, x2) => Some (bytes_eqb x2 x1, bytes_eqb w2 w1, match EncWbxml.find_sub (XmlFront.bs "<![CDATA[") x1 with Some _ => true | None => false end)
+      | None => None
+      end
+    | _ => None
+    end
+  | None => None
+  end.
+Example C03_ex_union_syncml_vobject_two_trips :
+  l_id exs_L = 2101 /\ XmlFrontEvents.root_canon exs_L XmlFrontInverse.no_emb (exs_root (XmlFront.bs "BEGIN:VCARD END:VCARD")) = true /\
+  exs_two_trips (XmlFront.bs "BEGIN:VCARD END:VCARD") = Some (true, true, true).
+Proof. repeat split; vm_compute; reflexivity. Qed.
+Example C03_ex_union_syncml_crlf_needs_split_events :
+  exs_two_trips (XmlFront.bs "BEGIN:VCARD" ++ [13; 10] ++ XmlFront.bs "END:VCARD") = Some (false, false, true).
+Proof. vm_compute. reflexivity. Qed.
